@@ -55,7 +55,12 @@ class C07(Spec):
     component = 'heap'
     driver = 'heap'
     lib_srcs = ['heap.c', 'common.c', 'bintree.c']
-    header_words = ('keys', 'dumpevery', 'cmpmode')
+    header_words = ('keys', 'dumpevery', 'cmpmode', 'swapobj')
+
+    def more_variants(self, cases, tier, seed):
+        # every third case once more with the heap moved between two objects by cstl_heap_swap (see drv_heap.c)
+        from checks import treelib
+        return treelib.swap_variants(cases, seed, every=3)
     rule = ('cases = corpus + one case per edge of the breadth-first closure of the Coq model over small element pools '
             'with duplicated keys (shortest path to the state + the operation) + seeded random push/pop/get/size/clear '
             'histories with heavy key duplication, aimed at sizes around powers of two; a case is non-trivial when its '
